@@ -411,7 +411,7 @@ pub fn stateright_count(depth: usize, size_cap: usize) -> (usize, bool) {
 
 pub fn spaces(tier: Tier) -> Vec<Space<'static>> {
     let mut sp: Vec<Space> = vec![];
-    let (depth, cap) = if tier.thorough() { (4, 64) } else { (3, 96) };
+    let (depth, cap) = if tier.thorough() { (4, 64) } else { (3, 80) };
     sp.push(Space::new("bfs", 1, move |_, acc| {
         let r = bfs(depth, cap, acc, 60_000_000);
         if r.uncounted > 0 {
@@ -450,7 +450,7 @@ pub fn spaces(tier: Tier) -> Vec<Space<'static>> {
 pub fn meta(tier: Tier) -> (String, serde_json::Value, Vec<String>) {
     (
         "explicit-state breadth-first search: state = canonical document bytes (deduplicated on the full bytes, no abstraction); a transition calls ONE real library function with one argument tuple drawn from the current state: concat (both orders, self), delete_by_name/index/keypath, array_insert, object_insert/delete/pick, strip_nulls, array_distinct/intersection/except, build_array, build_object (both key orders, duplicate keys), every extraction (get_by_index/name/keypath, array_values, object_each, object_keys), every item returned by Selector::select in four modes for a 12-path menu, and the two round trips. Every successor must pass the strict validator and equal the model encoder applied to the same operation on the tree. A stateright model over the same transition function is run at depth 2 and must report the same number of unique states and the same verdict. Non-trivial = every distinct reachable state.".into(),
-        json!({"depth": if tier.thorough() {4} else {3}, "successor_size_cap_bytes": if tier.thorough() {64} else {96}, "initial_states": initial_states().len(), "second_operand_pool": 8, "path_menu": 12}),
+        json!({"depth": if tier.thorough() {4} else {3}, "successor_size_cap_bytes": if tier.thorough() {64} else {80}, "initial_states": initial_states().len(), "second_operand_pool": 9, "path_menu": 12}),
         vec!["successors above the size cap are checked but not expanded (counted)".into()],
     )
 }
